@@ -22,6 +22,7 @@ import (
 	"github.com/lestrrat-go/jwx/v2/jwk"
 	"github.com/tetratelabs/telemetry"
 	"github.com/tetratelabs/telemetry/function"
+	"google.golang.org/grpc"
 	"sigs.k8s.io/controller-runtime/pkg/client"
 	"sigs.k8s.io/controller-runtime/pkg/client/fake"
 
@@ -975,6 +976,9 @@ func mkRequest(scheme, host, path string, hdr map[string]string) *envoy.CheckReq
 	h[":authority"] = host
 	h[":path"] = path
 	h[":method"] = "GET"
+	if _, ok := h["x-request-id"]; !ok {
+		h["x-request-id"] = "4bf92f35-77b3-4da6-a3ce-929d0e0e4736"
+	}
 	return &envoy.CheckRequest{Attributes: &envoy.AttributeContext{
 		Source:      &envoy.AttributeContext_Peer{Principal: "spiffe://cluster.local/ns/default/sa/ingress"},
 		Destination: &envoy.AttributeContext_Peer{Principal: "spiffe://cluster.local/ns/default/sa/app"},
@@ -1098,18 +1102,34 @@ func (w *World) invoke(rec *CheckRec, req *envoy.CheckRequest) {
 // identifier generator keeps between requests is then shared, as the handler's own tests share it).
 func (w *World) dispatch(fi int, req *envoy.CheckRequest) (*envoy.CheckResponse, error) {
 	if !w.Spec.HandlerMode || fi < 0 {
-		return w.Rep.filter.Check(context.Background(), req)
+		return w.viaInterceptors(req)
 	}
 	h, err := w.sharedHandler(fi)
 	if err != nil {
 		// (e.g. the provider was unreachable when the handler was to be built) fall back to the service's API
-		return w.Rep.filter.Check(context.Background(), req)
+		return w.viaInterceptors(req)
 	}
 	resp := &envoy.CheckResponse{}
 	if err := h.Process(context.Background(), req, resp); err != nil {
 		return nil, err
 	}
 	return resp, nil
+}
+
+// viaInterceptors calls ExtAuthZFilter.Check through the same unary interceptor chain, in the same order, as
+// server.Server installs on its gRPC server (request-id propagation, request/response logging), so that
+// their code runs under the harness's recover() like the rest of a check.
+func (w *World) viaInterceptors(req *envoy.CheckRequest) (*envoy.CheckResponse, error) {
+	info := &grpc.UnaryServerInfo{FullMethod: "/envoy.service.auth.v3.Authorization/Check"}
+	logmw := server.NewLogMiddleware()
+	out, err := server.PropagateRequestID(context.Background(), req, info, func(ctx context.Context, r interface{}) (interface{}, error) {
+		return logmw.UnaryServerInterceptor(ctx, r, info, func(ctx context.Context, r interface{}) (interface{}, error) {
+			cr, _ := r.(*envoy.CheckRequest)
+			return w.Rep.filter.Check(ctx, cr)
+		})
+	})
+	resp, _ := out.(*envoy.CheckResponse)
+	return resp, err
 }
 
 func (w *World) sharedHandler(fi int) (authz.Handler, error) {
